@@ -58,6 +58,7 @@ type ReplayFile struct {
 	Seed     int64      `json:"seed"`
 	Univ     int        `json:"universe"`
 	Beh      []Step     `json:"behaviour"`
+	Chain    *Scenario  `json:"chain,omitempty"`
 	Alpha    *Alphabets `json:"alphabets"`
 	Text     string     `json:"text"`
 	Monitor  string     `json:"monitor"`
@@ -561,14 +562,15 @@ func Check(c *core.Ctx) int {
 			continue
 		}
 		var beh []Step
+		var chain *Scenario
 		univ := 0
 		al := alphaOf[f.Plan.Name]
 		if f.run != nil {
-			beh, univ = f.run.Beh, f.run.Univ
+			beh, univ, chain = f.run.Beh, f.run.Univ, f.run.Chain
 		}
 		text := runText(al, f.run, f.Plan.NN)
-		path := c.WriteReplay("accessnode-"+m, ReplayFile{Prop: c.Prop, Stage: "accessnode", Plan: f.Plan, Seed: c.Seed, Univ: univ, Beh: beh, Alpha: al,
-			Text: text, Monitor: m, Pos: f.Pos, Line: f.Line, Concrete: universe(c.Seed, univ).Describe()})
+		path := c.WriteReplay("accessnode-"+m, ReplayFile{Prop: c.Prop, Stage: "accessnode", Plan: f.Plan, Seed: c.Seed, Univ: univ, Beh: beh, Chain: chain, Alpha: al,
+			Text: text, Monitor: m, Pos: f.Pos, Line: f.Line, Concrete: describeFor(c.Seed, univ, chain != nil)})
 		var per []string
 		for _, pn := range a.nplans {
 			per = append(per, fmt.Sprintf("%s:%d", pn, a.plans[pn]))
@@ -629,6 +631,13 @@ func Check(c *core.Ctx) int {
 	}
 	say("OK property=%s stage=accessnode tier=%s (%d observation classes, %d drift lines)\n", c.Prop, c.Tier, nobs, driftTotal)
 	return core.ExitOK
+}
+
+func describeFor(seed int64, univ int, chain bool) J {
+	if chain {
+		return chainUniverse(seed, univ).Describe()
+	}
+	return universe(seed, univ).Describe()
 }
 
 func rule(facts map[string]int, kind string) string {
@@ -768,7 +777,7 @@ func replay(c *core.Ctx, say func(string, ...any)) int {
 		say("NOTE: not an accessnode replay file; nothing to do in this stage\n")
 		return core.ExitOK
 	}
-	runs := []*Run{{Plan: rf.Plan, Seed: rf.Seed, Univ: rf.Univ, Beh: rf.Beh, No: 1}}
+	runs := []*Run{{Plan: rf.Plan, Seed: rf.Seed, Univ: rf.Univ, Beh: rf.Beh, Chain: rf.Chain, No: 1}}
 	if err := executeAll(runs, rf.Alpha, 1); err != nil {
 		say("INCONCLUSIVE: %v\n", err)
 		return core.ExitInconclusive
@@ -782,7 +791,7 @@ func replay(c *core.Ctx, say func(string, ...any)) int {
 		say("INCONCLUSIVE: %v\n", err)
 		return core.ExitInconclusive
 	}
-	say("behaviour: %s\n", rf.Alpha.behText(rf.Beh, rf.Plan.NN))
+	say("behaviour: %s\n", runText(rf.Alpha, runs[0], rf.Plan.NN))
 	for _, l := range runs[0].Lines {
 		lb, _ := json.Marshal(l.J)
 		say("  %s\n", lb)
